@@ -133,6 +133,15 @@ pub fn judge(fields: &[Field], kind: Kind) -> Verdict {
                 b":path" => {
                     if value.is_empty() {
                         worst(&mut v, Class::Unspecified, "path-empty");
+                    } else if value.iter().all(|&b| b >= 0x80 || is_path(&[b])) && value.iter().any(|&b| b >= 0x80) {
+                        // RFC 3986 has no bytes above 0x7f in a path; well-formed UTF-8 is widely let through
+                        // (http::uri::PathAndQuery is a str), so that is left open. Bytes that are not even UTF-8
+                        // cannot be the value of a PathAndQuery at all.
+                        if std::str::from_utf8(value).is_ok() {
+                            worst(&mut v, Class::Unspecified, "path-non-ascii-utf8");
+                        } else {
+                            worst(&mut v, Class::Malformed, "path-ill-formed-utf8");
+                        }
                     } else if !is_path(value) {
                         worst(&mut v, Class::Malformed, "path-unparseable");
                     }
